@@ -175,3 +175,7 @@ Proof.
   intros s x lvl Hn. destruct (ns_get s lvl [x]) as [v|] eqn:E; [|reflexivity].
   destruct (needs_root_bound _ _ _ _ _ Hn E) as [_ H]. congruence.
 Qed.
+
+(* the analysis hands back the very state it was given *)
+Theorem namespaces_unchanged : forall s n, fst (fst (find_missing_ident s n)) = s.
+Proof. intros s n. unfold find_missing_ident. destruct (needs_import s n). reflexivity. Qed.
